@@ -22,7 +22,8 @@ pub mod gen {
     pub fn sender_stream(rng: &mut Rng, rounds: usize, max_len: u64, id: i64) -> Vec<E<i64>> {
         let mut v = vec![];
         for _ in 0..rounds {
-            let mut ts = rng.below(4) as i64;
+            // one round in four lies entirely before time 0 (timestamps are signed)
+            let mut ts = if rng.chance(1, 4) { -30 - rng.below(40) as i64 } else { rng.below(4) as i64 };
             let len = if rng.chance(1, 5) { 0 } else { rng.below(max_len + 1) };
             for j in 0..len {
                 match rng.below(5) {
@@ -201,11 +202,31 @@ pub enum Del<L, R> {
 /// so at most one batch is ever in flight and the arrival order is exactly the delivery
 /// order (the generators only produce orders in which every batch is consumable).
 pub fn drive2<L, R, Op>(
+    chain: Op,
+    net: Net,
+    sl: Vec<verif::NetSender<L>>,
+    sr: Vec<verif::NetSender<R>>,
+    deliveries: Vec<Del<L, R>>,
+) -> Result<Vec<E<Op::Out>>, String>
+where
+    L: ExchangeData,
+    R: ExchangeData,
+    Op: Operator + 'static,
+    Op::Out: Send + 'static,
+{
+    drive2_paced(chain, net, sl, sr, deliveries, None)
+}
+
+/// As [`drive2`]; with `pause = Some(d)` the driver waits `d` before every delivery (and
+/// before closing), so that a receiver with a timed wait (adaptive batching) times out in
+/// every state it can be in.
+pub fn drive2_paced<L, R, Op>(
     mut chain: Op,
     net: Net,
     sl: Vec<verif::NetSender<L>>,
     sr: Vec<verif::NetSender<R>>,
     deliveries: Vec<Del<L, R>>,
+    pause: Option<std::time::Duration>,
 ) -> Result<Vec<E<Op::Out>>, String>
 where
     L: ExchangeData,
@@ -228,6 +249,9 @@ where
         sl.first().map(|s| s.pending()).unwrap_or(0) + sr.first().map(|s| s.pending()).unwrap_or(0)
     };
     'outer: for d in deliveries {
+        if let Some(p) = pause {
+            std::thread::sleep(p);
+        }
         match d {
             Del::L(s, b) => sl[s].send(b),
             Del::R(s, b) => sr[s].send(b),
@@ -290,13 +314,23 @@ pub fn drive_binary_start(
     left_cache: bool,
     right_cache: bool,
     deliveries: Vec<Del<i64, i64>>,
+    adaptive_ms: Option<u64>,
 ) -> Result<Vec<E<verif::Bin<i64, i64>>>, String> {
     let mut net = Net::new(5);
     let sl = net.add_prev::<i64>(1, nl);
     let sr = net.add_prev::<i64>(2, nr);
     let mut start = verif::start_binary::<i64, i64>(1, 2, left_cache, right_cache);
-    start.setup(&mut net.metadata(BatchMode::fixed(1024)));
-    drive2(start, net, sl, sr, deliveries)
+    match adaptive_ms {
+        // adaptive batching: the receiver waits with a timeout; every delivery comes later than that
+        Some(ms) => {
+            start.setup(&mut net.metadata(BatchMode::adaptive(1024, std::time::Duration::from_millis(ms))));
+            drive2_paced(start, net, sl, sr, deliveries, Some(std::time::Duration::from_millis(4 * ms)))
+        }
+        None => {
+            start.setup(&mut net.metadata(BatchMode::fixed(1024)));
+            drive2(start, net, sl, sr, deliveries)
+        }
+    }
 }
 
 /// Build a two-input block with the public API from two (never executed) script sources,
